@@ -169,6 +169,20 @@ pub fn c17(args: &Args) {
         out.emit(babai_event(&f, &g, &thin(&f), &thin(&g), "FG-thinned-fg"));
     }
     out.emit(babai_event(&[4, 1], &[1, 2], &[3, 1], &[1, 1], "FG-smaller-than-fg"));
+    // quotients that are exact half-integers: (F, G) = (2k+1)/2 * (f, g) with even f, g (rounding ties)
+    for &n in &[2usize, 8, 64, 512] {
+        let f: Vec<i64> = small_vec(&mut rng, n, 4.0).iter().map(|x| 2 * x).collect();
+        let g: Vec<i64> = small_vec(&mut rng, n, 4.0).iter().map(|x| 2 * x + if n == 2 { 2 } else { 0 }).collect();
+        if f.iter().all(|&x| x == 0) && g.iter().all(|&x| x == 0) {
+            continue;
+        }
+        for &k in &[0i64, 1, -1, 50] {
+            let m = 2 * k + 1;
+            let cf: Vec<i64> = f.iter().map(|x| x / 2 * m).collect();
+            let cg: Vec<i64> = g.iter().map(|x| x / 2 * m).collect();
+            out.emit(babai_event(&f, &g, &cf, &cg, "half-integer-quotient"));
+        }
+    }
     // corners: all-zero (F,G) (defect D7 before fix 75957a9); unit f; sparse
     for &n in &[2usize, 4, 64] {
         let f = small_vec(&mut rng, n, 5.0).iter().map(|x| x + 1).collect::<Vec<_>>();
